@@ -70,6 +70,9 @@ type c09Stack struct {
 
 var c09BackendNo = map[string]int{"mem": 0, "bolt": 1, "level": 2}
 
+// observations per backend (written to meta.json as x_backends)
+var c09PerBackend = map[string]int{}
+
 func c09NewStack(backend, dir string, seq int) (*c09Stack, error) {
 	var (
 		base storage.Store
@@ -535,7 +538,8 @@ func c09Observe(co *caseOut, s *c09Stack, in c09Input, kind string) {
 			}
 		}
 		impl := map[string]any{"found": found, "value": hx(v)}
-		co.add(kind, in.Backend+"/"+level, level != "absent", in, impl,
+		c09PerBackend[in.Backend]++
+		co.add(kind, level, level != "absent", in, impl,
 			fmt.Sprintf("CGet %d %s %s %s", bk, c09CoqOps(in.Ops), coqBytes(k), coqOpt(coqBytes(v), found)))
 	case "seek":
 		res, p := c09Seek(s, q)
@@ -572,7 +576,8 @@ func c09Observe(co *caseOut, s *c09Stack, in c09Input, kind string) {
 		if q.Lim != 0 {
 			lim = "-lim"
 		}
-		tag := fmt.Sprintf("%s/a%d-%s%s-d%d%s-L%d", in.Backend, q.API, dirs, st, min(q.Depth, 5), lim, min(hit, 3))
+		tag := fmt.Sprintf("a%d-%s%s-d%d%s-L%d", q.API, dirs, st, min(q.Depth, 2), lim, min(hit, 3))
+		c09PerBackend[in.Backend]++
 		co.add(kind, tag, hit >= 2, in, impl,
 			fmt.Sprintf("CSeek %d %s %d %d (R %s %s %s %d) %d %s", bk, c09CoqOps(in.Ops), q.API, q.ID,
 				coqBytes(unhx(q.Prefix)), coqBytes(unhx(q.Start)), coqBool(q.Bw), q.Depth, q.Lim, c09CoqKVs(res)))
@@ -654,6 +659,23 @@ func c09GenQuery(r *rng, pool [][]byte, depthMax int) c09Query {
 		p = p[:1]
 	}
 	q.API = pick(r, []int{0, 0, 1, 2, 2, 2, 3, 4, 4, 5, 6})
+	if q.API != 0 && q.API != 1 && q.API != 3 && r.chance(35) {
+		// trimming on: prefer a prefix P for which the pool holds both k = P++r and P++k (the trimmed key of P++k is k)
+		var cands [][]byte
+		for _, k1 := range pool {
+			for _, k2 := range pool {
+				if len(k2) > len(k1) && bytes.HasSuffix(k2, k1) {
+					pp := k2[:len(k2)-len(k1)]
+					if bytes.HasPrefix(k1, pp) {
+						cands = append(cands, pp)
+					}
+				}
+			}
+		}
+		if len(cands) > 0 {
+			p = append([]byte{}, pick(r, cands)...)
+		}
+	}
 	hdr := []byte{0x70, 0x70, 0x70, 0x70, 0x70}
 	user := p
 	if q.API >= 3 {
@@ -713,12 +735,41 @@ func c09GenHistory(r *rng, pool [][]byte, n int) []c09Op {
 	vseq := 0
 	for len(ops) < n {
 		c := r.intn(100)
+		if r.chance(6) { // flush cascade: every layer from the top down, so that the history's net effect reaches the base store
+			for i := 0; i < depth; i++ {
+				ops = append(ops, c09Op{T: "persist", I: i})
+			}
+			if privs[depth-1] && depth >= 2 {
+				depth--
+				privs = privs[:depth]
+			}
+			continue
+		}
+		if depth < 4 && r.chance(7) { // transaction-like: private wrap, one to three writes, commit into the layer below
+			ops = append(ops, c09Op{T: "wrap", Priv: true})
+			for j := 0; j < 1+r.intn(3); j++ {
+				if r.chance(75) {
+					vseq++
+					ops = append(ops, c09Op{T: "put", K: hx(pick(r, pool)), V: hx([]byte{byte(vseq)})})
+				} else {
+					ops = append(ops, c09Op{T: "del", K: hx(pick(r, pool))})
+				}
+			}
+			if r.chance(60) {
+				ops = append(ops, c09Op{T: "persistprivate"})
+			} else {
+				ops = append(ops, c09Op{T: "persist", I: 0})
+			}
+			continue
+		}
 		switch {
 		case c < 45:
 			vseq++
 			v := []byte{byte(vseq)}
 			if r.chance(10) {
 				v = append(v, byte(r.intn(256)))
+			} else if r.chance(8) {
+				v = []byte{} // an empty value is a value, not a tombstone
 			}
 			ops = append(ops, c09Op{T: "put", K: hx(pick(r, pool)), V: hx(v)})
 		case c < 62:
@@ -783,6 +834,18 @@ func runC09(args []string) error {
 			if err := json.Unmarshal(c, &x); err != nil {
 				return err
 			}
+			if x.Kind == "sched" {
+				var y struct {
+					Input c09SInput `json:"input"`
+				}
+				if err := json.Unmarshal(c, &y); err != nil {
+					return err
+				}
+				if err := c09RunSched(co, y.Input, dir, i); err != nil {
+					return err
+				}
+				continue
+			}
 			s, err := c09NewStack(x.Input.Backend, dir, i)
 			if err != nil {
 				return err
@@ -796,6 +859,7 @@ func runC09(args []string) error {
 			c09Observe(co, s, x.Input, x.Kind)
 			s.close(dir, x.Input.Backend, i)
 		}
+		co.extra["x_backends"] = c09PerBackend
 		return co.finish()
 	}
 
@@ -820,8 +884,17 @@ func runC09(args []string) error {
 			}
 			nextObs = i + 1 + r.intn(6)
 			prefixOps := append([]c09Op{}, ops[:i+1]...)
-			for g := 0; g < 2; g++ {
-				c09Observe(co, s, c09Input{Backend: backend, Ops: prefixOps, Q: c09Query{Key: hx(pick(r, pool))}}, "get")
+			for g := 0; g < 3; g++ {
+				key := hx(pick(r, pool))
+				if r.chance(60) { // a key the history has written
+					for tries := 0; tries < 8; tries++ {
+						if o := prefixOps[r.intn(len(prefixOps))]; o.K != "" {
+							key = o.K
+							break
+						}
+					}
+				}
+				c09Observe(co, s, c09Input{Backend: backend, Ops: prefixOps, Q: c09Query{Key: key}}, "get")
 			}
 			for g := 0; g < 5; g++ {
 				c09Observe(co, s, c09Input{Backend: backend, Ops: prefixOps, Q: c09GenQuery(r, pool, len(s.layers))}, "seek")
@@ -829,5 +902,13 @@ func runC09(args []string) error {
 		}
 		s.close(dir, backend, h)
 	}
+	// schedules: reader steps against writers and the lock regions of Persist
+	for i := 0; i < 4*cf.n; i++ {
+		ops, q := c09GenSched(r)
+		if err := c09RunSched(co, c09SInput{Backend: backends[i%3], Ops: ops, Q: q}, dir, cf.n+i); err != nil {
+			return fmt.Errorf("schedule %d: %w", i, err)
+		}
+	}
+	co.extra["x_backends"] = c09PerBackend
 	return co.finish()
 }
